@@ -21,7 +21,7 @@ from sparrowpy.form_factor import universal as U
 import sparrowpy.geometry as G
 from sparrowpy.classes import RadiosityFast as RF
 
-CUT = 1e-3          # literal in stokes_integration
+CUT = 0.0           # literal in stokes_integration (1e-3 before fix cfd1b2b)
 THRES = 1e-6        # default of _coincidence_check
 # "unchanged": equal up to the rounding of the integrators.  The contour sums cancel by a factor
 # ~ (distance/side)^2 (<= ~1e3 for the generated pairs), coordinates reach 1e3..1e4 m after scaling /
